@@ -57,7 +57,7 @@ CHECKS = {
         text="The same generated single-threaded history runs on bbolt, badger in memory and badger on disk (small files; shipped default options in the thorough tier); every step must give the same documents in the same order, counts, catalogs and the same sentinel (or an error on all). Separately both adapters' cursors are checked against a sorted-slice model: forward/reverse seek to present/absent/out-of-range targets, each key once in order, empty values visible.",
         design="6/C15"),
     "C16": dict(technique="property-based testing of criteria: reference truth value (differential) and algebraic/metamorphic identities (double negation, De Morgan, Neq=Not Eq, In, Contains, literal-kind invariance, field-reference substitution)",
-        text="Generated criteria trees and documents (absent fields, nil, mixed types, every Go numeric kind for the same literal, field references to absent fields) are evaluated with Satisfy (raw and pre-normalised literals) and through FindAll; results must equal the reference evaluator and satisfy the Boolean identities and literal-kind invariance the property lists.",
+        text="Generated criteria trees and documents (absent fields, nil, mixed types, every Go numeric kind for the same literal, field references to absent fields, Contains operand lists that repeat elements of a stored array and outnumber them) are evaluated with Satisfy (raw and pre-normalised literals) and through FindAll; results must equal the reference evaluator and satisfy the Boolean identities and literal-kind invariance the property lists.",
         design="6/C16"),
     "C17": dict(technique="model-based property testing of index.RangeIndex over real bbolt and badger transactions (filtered sorted slice as the model)",
         text="Indexes populated through Add with duplicate, nil and mixed-type values on real transactions of both backends; IterateRange over generated ranges (bounds mostly equal to stored values, both inclusivity flags, both directions, nil-only range), a consumer stopping after k, Iterate, Intersect and IsEmpty are compared with a filtered sorted-slice model.",
